@@ -20,6 +20,8 @@ def corpus():
     u = hx("users")
     base = "scenario=73,maxdur=10000000000,conc=2,maxit=0,igndrop=1"
     return [
+        "run prop=C15 mode=file dur=3000 conc=2 file=c:200:2/100ms;u:200:2 body=5 badparam=1",     # C15l: a parameter the OS refuses to export does not keep the others from being unset
+        "run prop=C15 mode=file dur=3000 conc=1 file=c:150:1/50ms;c:150:1/50ms;c:150:1/50ms body=1 badparam=1",
         "plan 6 %s,start=0 mode=%s,dur=7 dur=5,conc=3 params=6b:76" % (base, u),
         # four stages (105 units): restart at every boundary — total must stay the sum of ALL stages
         "plan 29 %s,start=0 mode=%s dur=30 dur=45 dur=20 dur=10" % (base, u),
